@@ -23,8 +23,9 @@ Nothing else is changed: arguments, working directory and outputs are the CLI's 
 import os
 import sys
 
-sys.path.insert(0, "/repo")
-sys.argv[0] = "/repo/gasol_asm.py"
+_REPO = os.environ.get("GASOL_VERIF_REPO", "/repo")
+sys.path.insert(0, _REPO)
+sys.argv[0] = _REPO + "/gasol_asm.py"
 import global_params.paths as paths  # noqa: E402
 
 _tmp = os.path.join(os.getcwd(), ".gasol_tmp") + "/"
